@@ -77,7 +77,7 @@ func check11() *simcore.Check {
 func check12() *simcore.Check {
 	return &simcore.Check{
 		ID: "C12", Engine: "triesim", Level: "exploration",
-		Rule: "plans = a source state of 1-150 accounts (hashes sharing prefixes), 0-5 storage tries of 0-60 slots some shared by several accounts, 0-3 codes some shared; destination pre-populated with nothing / complete random subtries (with the storage and code below them) / path scheme: the complete node set of a different state derived from the target / all code; a list of 5-400 requester actions (Missing(n) with n in {1,2,3,5,8,16,64,unlimited}, answer an arbitrary in-flight request, answer again something already answered, answer with an undecodable blob, Commit to the disk, restart with a new Sync object on the same disk), then a drain phase in which every request is answered once. Real state.NewStateSync/trie.Sync; the peer serves nodes from a refmpt-built node set. The concurrent local presence checks inside ProcessNode park at gates and are released by the tape. Non-trivial = at least two requests were issued. Distinct = distinct (gate sequence, deliveries/restarts/commits, root) fingerprints.",
+		Rule: "plans = a source state of 1-150 accounts (hashes sharing prefixes), 0-5 storage tries of 0-60 slots some shared by several accounts, 0-3 codes some shared; destination pre-populated with nothing / complete random subtries (with the storage and code below them) / path scheme: the complete node set of a different state derived from the target / all code; a list of 5-400 requester actions (Missing(n) with n in {1,2,3,5,8,16,64,unlimited}, answer an arbitrary in-flight request, answer again something already answered, answer with an undecodable blob, Commit to the disk, restart with a new Sync object on the same disk), then a drain phase in which every request is answered once. In 60% of the plans trie.Sync's per-depth throttle (maxFetchesPerDepth, 16384 in the shipped tree) is set to 1-64 through the overlay tunable so that Missing() throttles with small states; 20% of the states are storage heavy (every account has a 17-48 slot storage trie). Real state.NewStateSync/trie.Sync; the peer serves nodes from a refmpt-built node set. The concurrent local presence checks inside ProcessNode park at gates and are released by the tape. Non-trivial = at least two requests were issued. Distinct = distinct (gate sequence, deliveries/restarts/commits, root) fingerprints.",
 		Assumptions: []string{
 			"by contract the caller matches a response to its request by hash before ProcessNode (snap.Syncer does); blobs that decode but hash differently are therefore not delivered here, only undecodable ones",
 			"responses addressed to a dropped Sync object are dropped with it (not replayed into the new one)",
@@ -91,6 +91,6 @@ func check12() *simcore.Check {
 		Perturbed: []string{},
 		Runs:      map[string]int{"quick": 8000, "thorough": 1000000},
 		Gen:       Gen12, Decode: Decode12, Run: Run12, Shrink: Shrink12,
-		ProbeNames: []string{"concurrent-presence-checks", "pre-complete-subtrie", "pre-variant-state", "pre-all-code", "inconsistent-node-deleted", "completed-after-restart", "leaf-callback", "storage-tries-synced", "code-synced"},
+		ProbeNames: []string{"concurrent-presence-checks", "pre-complete-subtrie", "pre-variant-state", "pre-all-code", "inconsistent-node-deleted", "completed-after-restart", "leaf-callback", "storage-tries-synced", "code-synced", "missing-throttled"},
 	}
 }
